@@ -46,7 +46,7 @@ PROPS["C08"] = {
                               {"module": "HealthBreaker", "cfg": "HealthBreaker_gen.cfg", "params": {"MaxLen": 4}}]},
             "thorough": {"gen": [{"module": "HealthBreakerGen", "cfg": "HealthBreaker_gen2.cfg", "params": {"ReachLen": 9, "SufLen": 4}},
                                  {"module": "HealthBreaker", "cfg": "HealthBreaker_gen.cfg", "params": {"MaxLen": 6}}]},
-            "pkg": "internal/adapter/health", "test": "TestVerif_HealthBreaker",
+            "pkg": "internal/adapter/health", "test": "TestVerif_HealthBreaker", "harness_files": ["breaker_test.go"],
             "trace": {"module": "HealthBreakerTrace", "cfg": "HealthBreaker_trace.cfg"},
             "nontrivial": breaker_nontrivial,
         },
@@ -134,7 +134,7 @@ PROPS["C07"] = {
                 {"module": "HealthSchedGen", "cfg": "HealthSched_sim.cfg", "simulate": {"num": 2500, "depth": 40},
                  "params": {"CIs": "{1, 5, 20}", "Outcomes": _ALLOUT, "Ticks": "{7, 31, 61}", "ReachLen": 30, "SufLen": 0}},
             ]},
-            "pkg": "internal/adapter/health", "test": "TestVerif_HealthSched",
+            "pkg": "internal/adapter/health", "test": "TestVerif_HealthSched", "harness_files": ["sched_test.go", "breaker_test.go"],
             "trace": {"module": "HealthSchedTrace", "cfg": "HealthSched_trace.cfg"},
             "nontrivial": lambda s: any((isinstance(x, list) and x[0] in ("SetBackend", "Start") and x[-1] != "ok") or x == "ProxyFailure" for x in s),
         },
@@ -166,7 +166,7 @@ _G_ELIG = dgen(NEPs="{2, 3}", GKinds='{"ok", "reset_pre"}', Balancers='{"priorit
 _DISPATCH_BASE = {
     "name": "dispatch",
     "mc": [{"module": "Dispatch", "cfg": "Dispatch_mc.cfg"}],
-    "pkg": "internal/app", "test": "TestVerif_Dispatch",
+    "pkg": "internal/app", "test": "TestVerif_Dispatch", "harness_files": ["stack_test.go", "dispatch_test.go"],
     "trace": {"module": "DispatchTrace", "cfg": "Dispatch_trace.cfg", "deque": True},
     "nontrivial": lambda s: any(k != "ok" for st in s["steps"] if st["op"] != "health" for k in st["plans"].values())
                             or any(b != "up" for b in s.get("boot", {}).values()),
@@ -231,3 +231,18 @@ PROPS["C19"] = {
     "assumptions": ["quiescence = all clients returned and the collector's numbers unchanged for 150 ms"],
     "parts": [dpart([_G_SINGLE2, _G_BURST, _G_BREAKER], [_G_SINGLE3, _G_BURST, _G_BREAKER, _G_TWOSTEP, _G_FAIL], 8000)],
 }
+
+
+# ---------------------------------------------------------------------------
+# property fragments: bin/props_<ID>.py each define PROPS entries via register(PROPS, HARNESS_PKGS)
+def _load_fragments():
+    import glob as _glob, importlib.util as _ilu, os as _os
+    here = _os.path.dirname(_os.path.abspath(__file__))
+    for f in sorted(_glob.glob(_os.path.join(here, "props_*.py"))):
+        spec = _ilu.spec_from_file_location(_os.path.basename(f)[:-3], f)
+        mod = _ilu.module_from_spec(spec)
+        spec.loader.exec_module(mod)
+        mod.register(PROPS, HARNESS_PKGS)
+
+
+_load_fragments()
